@@ -875,7 +875,7 @@ fn syndrome_faults(ctx: &Ctx, rng: &mut Rng, s: &SizeInfo, b: usize, faults: &mu
 fn aligned_roots(rng: &mut Rng, s: &SizeInfo) -> Vec<usize> {
     let t = s.t();
     let k = s.k;
-    match rng.below(16) {
+    match rng.below(17) {
         0 | 1 => (1..=2 * t).collect(),            // on odd k: only the last syndrome can notice
         2 => (1..=k).collect(),                    // lands on another valid codeword
         3 => (1..=rng.range(t, k)).collect(),      // first t syndromes vanish
@@ -899,8 +899,55 @@ fn aligned_roots(rng: &mut Rng, s: &SizeInfo) -> Vec<usize> {
             let a = rng.range(2, k);
             (a..=k).collect()
         }
+        14 => {
+            // two windows: a consistent prefix and a consistent suffix, the middle free
+            let a = rng.range(1, k - 2);
+            let b = rng.range(a + 2, k);
+            (1..=a).chain(b..=k).collect()
+        }
         _ => (1..=k).filter(|_| rng.chance(1, 2)).collect(),
     }
+}
+
+/// Damage that is correlated across interleaved blocks, as a physical burst is: the same in-block positions
+/// hit in two or more consecutive blocks (correctably), and one of those blocks additionally carries crafted
+/// uncorrectable damage. Exercises anything a decoder carries over from one block to the next.
+fn cross_block_faults(ctx: &Ctx, rng: &mut Rng, s: &SizeInfo, faults: &mut Vec<Fault>) -> bool {
+    if s.blocks < 2 {
+        return false;
+    }
+    let t = s.t();
+    let nb_min = s.block_len(s.blocks - 1);
+    let v = rng.range(1, t - 1);
+    let idxs = rng.sample_distinct(nb_min, v);
+    let b0 = rng.below(s.blocks - 1);
+    let n_blocks = rng.range(2, (s.blocks - b0).min(3));
+    let target = b0 + rng.range(1, n_blocks - 1).max(1).min(n_blocks - 1); // a block after the first of the group
+    for b in b0..b0 + n_blocks {
+        let pos = s.block_positions(b);
+        for i in &idxs {
+            // positions counted from the END of the block (so they coincide as polynomial degrees)
+            let p = pos[pos.len() - 1 - *i];
+            faults.push(Fault::new("cw_burst", Op::CwXor { pos: p as u32, mask: rng.nonzero_byte() }));
+        }
+    }
+    // the crafted part in one block of the group
+    match rng.below(3) {
+        0 => {
+            let a = (2 * v).min(s.k - 2).max(1);
+            let lo = if rng.chance(1, 2) && t > a { t } else { rng.range(a + 1, s.k - 1).max(a + 1) };
+            let roots: Vec<usize> = (1..=a).chain(lo + 1..=s.k).collect();
+            aligned_faults(ctx, rng, s, target, &roots, faults);
+        }
+        1 => {
+            let roots = aligned_roots(rng, s);
+            aligned_faults(ctx, rng, s, target, &roots, faults);
+        }
+        _ => {
+            syndrome_faults(ctx, rng, s, target, faults);
+        }
+    }
+    true
 }
 
 // ---------------- pixel-level fault construction ----------------
@@ -1752,6 +1799,11 @@ fn gen_c09(ctx: &Ctx, rng: &mut Rng, i: u64) -> Trace {
     let producer = producer_for_size(rng, s, 5);
     let mut faults = Vec::new();
     beyond_radius_faults(ctx, rng, s, &mut faults);
+    if s.blocks > 1 && rng.chance(1, 6) {
+        faults.clear();
+        cross_block_faults(ctx, rng, s, &mut faults);
+        return Trace { prop: "C09".into(), producer, faults };
+    }
     // several blocks uncorrectable / specially damaged at once
     if s.blocks > 1 && rng.chance(1, 4) {
         beyond_radius_faults(ctx, rng, s, &mut faults);
